@@ -68,6 +68,7 @@ pub mod generate;
 /// exactly as compile() does it, plus access to the per-line event log of cpp::process().
 #[cfg(cc6502_verif)]
 pub mod verif {
+    #[cfg(cc6502_verif_trace)]
     pub use crate::cpp::verif_log::{Event, LOG};
     pub struct Preprocessed {
         pub text: String,
